@@ -254,7 +254,7 @@ def runFfiLog (j : Json) : Json :=
   | "uri" =>
     let s : Scenario := ⟨[.ffiLabel, .anyOptions, .label], true⟩
     -- nothing connects; removing a SQLite file that does not exist is `Ok(false)` (a successful call)
-    let steps := (["postgres", "postgres-encoded", "postgres-query-encoded", "sqlite-query-encoded", "unknown-scheme", "sqlite", "bad-percent"].map
+    let steps := (["postgres", "postgres-encoded", "postgres-query-encoded", "postgres-adminpw-only", "sqlite-query-encoded", "unknown-scheme", "sqlite", "bad-percent"].map
       fun which => ["open", "provision", "remove"].map fun entry =>
         (entry ++ "-" ++ which, entry == "remove" && (which.startsWith "sqlite" || which == "bad-percent"))).flatten
     Json.mkObj [("leak", .bool (s.leaks FmtCfg.current)), ("error_json_leak", .bool errorJsonLeak), ("steps", stepsJson steps)]
